@@ -1,5 +1,6 @@
 import GqlVerif.Base.Json
 import GqlVerif.Proto.Defer
+import GqlVerif.Proto.DeferTree
 namespace GqlVerif.Driver
 open GqlVerif GqlVerif.Defer
 
@@ -29,4 +30,12 @@ def c10check (args : Json) : Json :=
         ("firstBad", match c10FirstBad {} 0 fs with | some n => Json.ofNat n | none => .null),
         ("allDone", .bool (allDone (finalState {} fs))),
         ("data", reconstruct initial fs)]
+/-- `c10.anc {parents:[[id,parent]…], f, p}` → `{anc}` (Proto.DeferTree.anc) -/
+def c10anc (args : Json) : Json :=
+  let ps := (args.arrD "parents").map fun j => match j with
+    | .arr [a, b] => ((a.asNat?).getD 0, (b.asNat?).getD 0)
+    | _ => (0, 0)
+  let parent : Nat → Nat := fun g => match ps.find? (·.1 == g) with | some (_, p) => p | none => 0
+  .obj [("anc", .bool (GqlVerif.Proto.DeferTree.anc parent (args.natD "f") (args.natD "p")))]
+
 end GqlVerif.Driver
